@@ -291,6 +291,7 @@ func fdOpenErrYielded(c *Ctx, r *Report, sp fileSpec, where string, openCall *as
 				continue
 			}
 			n++
+			t.noEOF = true // opening is not reading: an io.EOF from Open (e.g. an empty .gz) is a failure to open, not a clean end
 			findings, _ := e.analyze(f, t)
 			if len(findings) == 0 {
 				r.holds("FD2", where, "open error yielded", c.pos(t.call.Pos()), "a failure to open the path is handed to the consumer on every path")
